@@ -559,6 +559,12 @@ func (o *operation) handle() {
 			return
 		}
 		skipBody = !hasBody
+		// The request line builder produces the path in its escaped (wire) form.
+		o.request.URL.RawPath = ""
+		if unescaped, err := url.PathUnescape(o.request.URL.Path); err == nil && unescaped != o.request.URL.Path {
+			o.request.URL.RawPath = o.request.URL.Path
+			o.request.URL.Path = unescaped
+		}
 		// Recompute if the server needs to prep the request, now that we've modified
 		// properties of op.request.
 		if o.serverPreparer != nil {
